@@ -37,8 +37,8 @@ FEAT = gen.Feat(shadow=True, uncached=True, objrefs=True)
 
 def plan(tier):
     if tier == "quick":
-        return {"shards": 8, "examples": 60, "wall": 70}
-    return {"shards": 16, "examples": 600, "wall": 900}
+        return {"shards": 8, "examples": 400, "wall": 100}
+    return {"shards": 16, "examples": 6000, "wall": 2400}
 
 
 @st.composite
